@@ -39,6 +39,15 @@ type rewrite struct {
 	// GoStmt: rewrite `go f(args)` into `<GoFunc>(func(){ f(args) })` with
 	// arguments evaluated eagerly.
 	GoStmt string `json:"go_stmt,omitempty"`
+	// GoStmtOnly: if set, only `go` statements whose call text contains this
+	// substring are rewritten; at least one must match.
+	GoStmtOnly string `json:"go_stmt_only,omitempty"`
+	// ChanPkg: AST-level rewrite of channel types and operations onto the generic
+	// channel of a shim package known under this local name (e.g. "sync" after the
+	// import substitution sync -> verifshim/vsync): `chan T` -> `*<pkg>.Chan[T]`,
+	// `make(chan T, n)` -> `<pkg>.MakeChan[T](n)`, `c <- v` -> `c.Send(v)`,
+	// `<-c` -> `c.Recv()`. select statements are not supported (hard error).
+	ChanPkg string `json:"chan_pkg,omitempty"`
 	// RangeMap: AST-level rewrite of `for k, v := range <Expr> {body}` into
 	// `for _, k := range <Func>(<Arg>) { v := <Expr>[k]; body }` so that the
 	// harness owns the iteration order of a map (robust against edits of the
@@ -193,7 +202,14 @@ func rewriteFile(file string, rw rewrite) ([]byte, error) {
 		return nil, fmt.Errorf("imports not found: %v", missing)
 	}
 	if rw.GoStmt != "" {
-		rewriteGo(f, rw.GoStmt)
+		if n := rewriteGo(fset, f, rw.GoStmt, rw.GoStmtOnly); rw.GoStmtOnly != "" && n == 0 {
+			return nil, fmt.Errorf("go_stmt_only %q matched no go statement", rw.GoStmtOnly)
+		}
+	}
+	if rw.ChanPkg != "" {
+		if err := rewriteChans(f, rw.ChanPkg); err != nil {
+			return nil, err
+		}
 	}
 	for _, rm := range rw.RangeMap {
 		n := rewriteRangeMap(fset, f, rm.Expr, rm.Func, rm.Arg, rm.PerFunc)
@@ -224,7 +240,7 @@ func rewriteFile(file string, rw rewrite) ([]byte, error) {
 //	{ a0, a1 := arg0, arg1; GoFunc(func(){ call(a0, a1) }) }
 //
 // for plain calls; `go func(){...}()` (no args) becomes GoFunc(func(){...}).
-func rewriteGo(f *ast.File, goFunc string) {
+func rewriteGo(fset *token.FileSet, f *ast.File, goFunc string, only string) int {
 	parts := strings.Split(goFunc, ".")
 	var fun ast.Expr = ast.NewIdent(parts[0])
 	for _, p := range parts[1:] {
@@ -246,6 +262,9 @@ func rewriteGo(f *ast.File, goFunc string) {
 		for i, s := range list {
 			g, ok := s.(*ast.GoStmt)
 			if !ok {
+				continue
+			}
+			if only != "" && !strings.Contains(exprString(fset, g.Call), only) {
 				continue
 			}
 			call := g.Call
@@ -278,6 +297,7 @@ func rewriteGo(f *ast.File, goFunc string) {
 		}
 		return true
 	})
+	return n
 }
 
 func exprString(fset *token.FileSet, e ast.Expr) string {
@@ -335,4 +355,78 @@ func rewriteRangeMap(fset *token.FileSet, f *ast.File, expr, fn, arg string, per
 		})
 	}
 	return n
+}
+
+// rewriteChans: see rewrite.ChanPkg.
+func rewriteChans(f *ast.File, pkg string) error {
+	var err error
+	chanOf := func(elem ast.Expr) ast.Expr {
+		return &ast.StarExpr{X: &ast.IndexExpr{X: &ast.SelectorExpr{X: ast.NewIdent(pkg), Sel: ast.NewIdent("Chan")}, Index: elem}}
+	}
+	// expressions: make(chan T[, n]) and <-c ; types: chan T
+	var fixExpr func(e ast.Expr) ast.Expr
+	fixExpr = func(e ast.Expr) ast.Expr {
+		switch x := e.(type) {
+		case *ast.ChanType:
+			return chanOf(x.Value)
+		case *ast.UnaryExpr:
+			if x.Op == token.ARROW {
+				return &ast.CallExpr{Fun: &ast.SelectorExpr{X: x.X, Sel: ast.NewIdent("Recv")}}
+			}
+		case *ast.CallExpr:
+			if id, ok := x.Fun.(*ast.Ident); ok && id.Name == "make" && len(x.Args) >= 1 {
+				if ct, ok := x.Args[0].(*ast.ChanType); ok {
+					var n ast.Expr = &ast.BasicLit{Kind: token.INT, Value: "0"}
+					if len(x.Args) > 1 {
+						n = x.Args[1]
+					}
+					return &ast.CallExpr{Fun: &ast.IndexExpr{X: &ast.SelectorExpr{X: ast.NewIdent(pkg), Sel: ast.NewIdent("MakeChan")}, Index: ct.Value}, Args: []ast.Expr{n}}
+				}
+			}
+		}
+		return e
+	}
+	ast.Inspect(f, func(nd ast.Node) bool {
+		switch x := nd.(type) {
+		case *ast.SelectStmt:
+			err = fmt.Errorf("chan_pkg: select statements are not supported")
+		case *ast.Field:
+			x.Type = fixExpr(x.Type)
+		case *ast.ValueSpec:
+			if x.Type != nil {
+				x.Type = fixExpr(x.Type)
+			}
+			for i := range x.Values {
+				x.Values[i] = fixExpr(x.Values[i])
+			}
+		case *ast.AssignStmt:
+			for i := range x.Rhs {
+				x.Rhs[i] = fixExpr(x.Rhs[i])
+			}
+		case *ast.ExprStmt:
+			x.X = fixExpr(x.X)
+		case *ast.ReturnStmt:
+			for i := range x.Results {
+				x.Results[i] = fixExpr(x.Results[i])
+			}
+		case *ast.CallExpr:
+			for i := range x.Args {
+				x.Args[i] = fixExpr(x.Args[i])
+			}
+		case *ast.BlockStmt:
+			for i, st := range x.List {
+				if ss, ok := st.(*ast.SendStmt); ok {
+					x.List[i] = &ast.ExprStmt{X: &ast.CallExpr{Fun: &ast.SelectorExpr{X: ss.Chan, Sel: ast.NewIdent("Send")}, Args: []ast.Expr{fixExpr(ss.Value)}}}
+				}
+			}
+		case *ast.CaseClause:
+			for i, st := range x.Body {
+				if ss, ok := st.(*ast.SendStmt); ok {
+					x.Body[i] = &ast.ExprStmt{X: &ast.CallExpr{Fun: &ast.SelectorExpr{X: ss.Chan, Sel: ast.NewIdent("Send")}, Args: []ast.Expr{fixExpr(ss.Value)}}}
+				}
+			}
+		}
+		return true
+	})
+	return err
 }
